@@ -266,16 +266,41 @@ class YieldMoves(common.Suite):
                 kind = "overcommitted"
                 rng.choice(table)["min"] += cycles + rng.randint(0, 2)
             script = make_script(rng, table, cycles, step)
-            yield {"kind": kind, "table": table, "cycles": cycles, "step": step, "script": script}
+            case = {"kind": kind, "table": table, "cycles": cycles, "step": step, "script": script}
+            if kind == "valid" and rng.random() < 0.25:
+                # the table has ALREADY scheduled steps with other weights; the weights of the case are then written
+                # into the entries (in place, or by replacing the entry): the schedule follows the weights as they are now
+                case["preuse"] = {"weights": [rng.choice([1.0, 2.0, 0.5, 3.0]) for _ in table],
+                                  "how": rng.choice(["attribute", "attribute", "entry"]), "calls": rng.choice([1, 2, 3])}
+            yield case
 
     def real(self, case):
         from scripted import ScriptedRNG
 
         table, cycles, step = case["table"], case["cycles"], case["step"]
         valid_for_add = all(m["min"] >= 0 for m in table) and sum(m["min"] for m in table) <= cycles
-        mc = build_mc(table, cycles, via_add_move=valid_for_add)
+        pre = case.get("preuse")
+        if pre:
+            import numpy as np
+            from quansino.utils.moves import MoveStorage
+
+            mc = build_mc([{**m, "weight": w} for m, w in zip(table, pre["weights"])], cycles, via_add_move=valid_for_add)
+            mc.step_count = step
+            common.set_rng(mc, np.random.default_rng(7))
+            mc.context.rng = common.get_rng(mc)
+            for _ in range(pre["calls"]):
+                list(mc.yield_moves())
+            for m in table:
+                if pre["how"] == "attribute":
+                    mc.moves[m["name"]].probability = m["weight"]
+                else:
+                    old = mc.moves[m["name"]]
+                    mc.moves[m["name"]] = MoveStorage(move=old.move, criteria=old.criteria, interval=old.interval,
+                                                      probability=m["weight"], minimum_count=old.minimum_count)
+        else:
+            mc = build_mc(table, cycles, via_add_move=valid_for_add)
         rng = ScriptedRNG(case["script"])
-        mc._rng = rng
+        common.set_rng(mc, rng)
         mc.context.rng = rng
         mc.step_count = step
         try:
@@ -401,7 +426,7 @@ class Step(common.Suite):
             m["criteria"] = _ProbeCriteria()
         mc = build_mc(table, case["cycles"])
         rng = ScriptedRNG(case["script"])
-        mc._rng = rng
+        common.set_rng(mc, rng)
         mc.context.rng = rng
         mc.step_count = case["step"]
         mc.move_history = [("stale", True)]
@@ -714,7 +739,7 @@ class Frequency(common.Suite):
         for seed in case["seeds"]:
             mc = build_mc(table, cycles)
             rec = RecordingRNG(np.random.Generator(np.random.PCG64(seed)))
-            mc._rng = rec
+            common.set_rng(mc, rec)
             mc.context.rng = rec
             # free-slot counts pooled per set of due moves (the weights are renormalised over the due moves)
             pools: dict[tuple, list] = {}
